@@ -69,3 +69,38 @@ Example C04_example :
                               (mk_rst true true false [] false) in
   o = OVal (VInt 7) /\ active s' = false /\ aborts_of l = 1%nat /\ length (trace_of l) = 3%nat.
 Proof. vm_compute. repeat split; reflexivity. Qed.
+
+(** ---- non-vacuity per theorem (wp-audit) ---- *)
+(** C04_operation_transparent (premise: no recording active): the faulty program of [C04_example] as a decorated
+    operation on a fresh recorder - the key failure discards the recording, the cassette sees create + abort,
+    the caller sees exactly the twin's outcome and (non-empty) trace *)
+Definition c04_cf : icfg :=
+  {| i_alias := U"get"; i_resolver := RNone; i_cap := CapAll; i_static := true; i_handler := None;
+     i_prep_discards := false; i_run_missing := false; i_vmiss := VMNone; i_fallbacks := FbNone |}.
+Definition c04_op : opdef :=
+  {| op_class := U"Op"; op_classlevel := false; op_extractor := XRaises;
+     op_body := Try (Inp c04_cf (Discard (Raise (U"ValueError"))) [Lit (VUnser 1)] [] (Ret (Var 0))) (Ret (Lit (VInt 7))) |}.
+Definition c04_P (skipped : bool) : prm := {| p_rate := 1; p_ignore := false; p_skipped := skipped; p_copy := false |}.
+Example C04_operation_transparent_nonvacuous :
+  let ob := fst (record_run (fun _ => 0) true (c04_P false) c04_op true fresh_rst fresh_world) in
+  active fresh_rst = false /\ (ob_outcome ob, ob_trace ob) = plain_exec (op_body c04_op) [] /\
+  ob_outcome ob = OVal (VInt 7) /\ length (ob_trace ob) = 3%nat /\ ob_cass ob = [CCreate (U"Op"); CAbort 0].
+Proof. vm_compute. repeat split; reflexivity. Qed.
+
+(** C04_disabled_passthrough (premises: no recording active; recording disabled, or the class skipped): both ways *)
+Example C04_disabled_passthrough_nonvacuous :
+  active fresh_rst = false /\ negb false || p_skipped (c04_P false) = true /\ negb true || p_skipped (c04_P true) = true /\
+  (let '(ob, w') := record_run (fun _ => 0) false (c04_P false) c04_op false fresh_rst fresh_world in
+   ob_cass ob = [] /\ w' = fresh_world /\ length (ob_trace ob) = 3%nat) /\
+  (let '(ob, w') := record_run (fun _ => 0) true (c04_P true) c04_op false fresh_rst fresh_world in
+   ob_cass ob = [] /\ w' = fresh_world /\ length (ob_trace ob) = 3%nat).
+Proof. vm_compute. repeat split; reflexivity. Qed.
+
+(** C04_no_leak_under_any_interleaving has no premise; a schedule with preemptions on three threads (a discard
+    overtakes a forced sampling and an interception's post-body; a second discard finds nothing): nobody crashes *)
+Example C04_race_example :
+  let '(sh, ls) := run Fixed [ABegin 0 MForce; ABegin 1 MPost; AStep 1; ABegin 2 MDiscard; AStep 2; AStep 0; AStep 1;
+                              AStep 2; ABegin 0 MDiscard; AStep 0; ABegin 1 MRecordData; AStep 1]
+                       (sh0, repeat idle_thread 3) in
+  existsb crashed ls = false /\ fin sh = 1%nat /\ ar sh = false /\ fs sh = false /\ ap sh = false.
+Proof. vm_compute. repeat split; reflexivity. Qed.
